@@ -14,6 +14,7 @@
   Go panics are explicit: `resp[0]` of `Request` and `payloads[i]` of `BatchOpt` are `.panic` branches on the
   empty list (shown unreachable in Props/C12).
 -/
+import KmipModel.Gen.Registry
 namespace Kmip.Resp
 
 /-- `kmip.ProtocolVersion{Major, Minor}` (two int32 fields). -/
@@ -216,8 +217,9 @@ def WireShaped (reg : List Nat) : RoundTrip → Prop
   | .fail => True
   | .msg _ items => ∀ bi ∈ items, ∀ p, bi.payload = some p → bi.op ≠ 0 ∧ p = respKind reg bi.op
 
-/-! ### The registries as of the current tree (tied to the Go tables by the `resp.enumstr` /
-    `resp.registered` correspondence sweep of the `resp` engine). Names are base-256 numbers. -/
+/-! ### Reference tables for the non-vacuity examples (a snapshot; names are base-256 numbers without the
+    registry's leading 0x01). The tables the DRIVER evaluates with are the regenerated live registries, see
+    `stdTables` below: renaming an enumeration value in the Go code is followed by the model. -/
 
 def statusNames : List (Nat × Nat) := [
   (0x0, 23491492796789619),  -- Success
@@ -300,11 +302,16 @@ def operationNames : List (Nat × Nat) := [
   (0x2B, 76383584744052)  -- Export
 ]
 
-/-- operations with a registered (request, response) payload type pair (`kmip.RegisterOperationPayload`). -/
-def registeredOps : List Nat :=
+/-- snapshot of the operations with a registered (request, response) payload type pair. -/
+def pinnedOps : List Nat :=
   [0x1, 0x2, 0x3, 0x4, 0x8, 0xA, 0xB, 0xC, 0xD, 0xE, 0xF, 0x10, 0x11, 0x12, 0x13, 0x14, 0x15, 0x16, 0x18,
    0x1D, 0x1E, 0x1F, 0x20, 0x21, 0x22, 0x2A, 0x2B]
 
-def stdTables : Tables := { ops := operationNames, status := statusNames, reasons := reasonNames }
+def pinnedTables : Tables := { ops := operationNames, status := statusNames, reasons := reasonNames }
+
+/-- the live registries of the current tree (REGENERATED by go/cmd/extract on every check: `ttlv.enumNames` of
+    the Operation, Result Status and Result Reason enumerations; names packed with the registry's leading 0x01). -/
+def stdTables : Tables :=
+  { ops := Kmip.Gen.enum_42005C_byValue, status := Kmip.Gen.enum_42007F_byValue, reasons := Kmip.Gen.enum_42007E_byValue }
 
 end Kmip.Resp
